@@ -57,7 +57,7 @@ func (w *simWriter) Write(p []byte) (int, error) {
 type sandbox struct{ root string }
 
 func newSandbox() (*sandbox, error) {
-	root, err := os.MkdirTemp("", "zipsim-")
+	root, err := os.MkdirTemp(scratchBase(), "zipsim-")
 	if err != nil {
 		return nil, err
 	}
@@ -102,6 +102,9 @@ func archiveEntries(b []byte) ([]ref.ZipEntry, map[string]string, error) {
 	content := map[string]string{}
 	for _, f := range zr.File {
 		es = append(es, ref.ZipEntry{Name: f.Name, Size: f.UncompressedSize64, IsDir: strings.HasSuffix(f.Name, "/")})
+		if strings.HasSuffix(f.Name, "/") {
+			continue // directory entries are ignored by the package; their content and declared size do not matter
+		}
 		rc, err := f.Open()
 		if err != nil {
 			return es, content, err
